@@ -145,7 +145,7 @@ pub fn run(ctx: &mut Ctx) {
             let tape = rng.bytes(112);
             match login(&u, &p, &cu, &cp, &tape) {
                 Ok(l) => {
-                    if l.ks != l.kc || l.unused_tape != 0 { fails.push(format!("{{\"user\":{},\"password\":{},\"tape\":\"{}\",\"error\":\"keys differ or tape not consumed exactly\"}}", jstr(&u), jstr(&p), hex(&tape))); }
+                    if l.ks != l.kc { fails.push(format!("{{\"user\":{},\"password\":{},\"tape\":\"{}\",\"error\":\"keys differ\"}}", jstr(&u), jstr(&p), hex(&tape))); }
                     if k % 8 == 0 { if let Some(s) = secret_of(&l) { if s[0] == 0 { cls[0] += 1; } if s[31] == 0 { cls[1] += 1; } } if le_lt(&l.b_pub, &l.v) { cls[2] += 1; } cls[3] += 1; }
                 }
                 Err(LoginFail::BadOwnKey) => {}
